@@ -431,6 +431,8 @@ pub trait Erased {
     fn debug(&self) -> String;
     fn to_file(&self, path: &Path) -> io::Result<()>;
     fn from_file_same(&self, path: &Path) -> io::Result<Box<dyn Erased>>;
+    /// the library's own public round-trip self-test `serialize::test` (panics if size or content do not survive)
+    fn lib_selftest(&self, name: &str);
     fn map_check(&self, map: &MemoryMap, offset: usize) -> Option<io::Result<MapResult>>;
     fn as_any(&self) -> &dyn std::any::Any;
 }
@@ -483,6 +485,9 @@ impl<T: Kind> Erased for T {
     fn from_file_same(&self, path: &Path) -> io::Result<Box<dyn Erased>> {
         let v: T = simple_sds::serialize::load_from(path)?;
         Ok(Box::new(v))
+    }
+    fn lib_selftest(&self, name: &str) {
+        let _ = simple_sds::serialize::test(self, name, Some(self.size_in_elements()), true);
     }
     fn map_check(&self, map: &MemoryMap, offset: usize) -> Option<io::Result<MapResult>> {
         Kind::map_check(self, map, offset)
